@@ -395,7 +395,17 @@ impl<'a, T: IteTable<'a, BddPtr<'a>> + Default> Session<'a, T> {
                 ev["pm"] = pj;
                 let cnf = mk_cnf(&c);
                 let m = PartialModel::from_assignments(&pm);
-                Some(guarded(|| b.compile_cnf_with_assignments(&cnf, &m)))
+                // C05: compiling under a partial assignment = compiling, then conditioning on it (same diagram)
+                match guarded(|| b.condition_model(b.compile_cnf(&cnf), &m)) {
+                    Ok(y) => {
+                        let mut pre = vec![];
+                        let cm = self.ids.ptr(y, &mut pre);
+                        ev["cm_root"] = json!(cm);
+                        ev["pre_nodes"] = json!(pre);
+                        Some(guarded(|| b.compile_cnf_with_assignments(&cnf, &m)))
+                    }
+                    Err(msg) => Some(Err(msg)),
+                }
             }
             "expr" => {
                 let (j, e) = rand_expr(rng, nv, 3);
@@ -449,6 +459,12 @@ impl<'a, T: IteTable<'a, BddPtr<'a>> + Default> Session<'a, T> {
                     self.next_slot += 1;
                     ev["res"] = json!(res_slot);
                     ev["root"] = json!(root);
+                    if let Some(pre) = ev.get("pre_nodes").cloned() {
+                        let mut all = pre.as_array().unwrap().clone();
+                        all.extend(newn);
+                        newn = all;
+                        ev.as_object_mut().unwrap().remove("pre_nodes");
+                    }
                     ev["nodes"] = json!(newn);
                     ev["dirty"] = json!(self.ids.dirty());
                     out.emit(ev);
